@@ -38,9 +38,10 @@ theorem need_ge_tent (s s' : St) (h : List Ev) (h0 : s.need ≥ tent s) (hr : ru
           simp only [apply]; split
           · rename_i ht; simp [tent] at h0 ⊢
           · exact h0
-        | released id n b f => simp only [apply]; split <;> simp_all [tent] <;> omega
+        | released id n b f => simp only [apply]; split <;> split <;> simp_all [tent] <;> omega
         | bcast site => simp [apply, tent]
         | returned id => simp only [apply]; split <;> simp_all [tent] <;> omega
+        | flushReturned => simp only [apply, tent] at h0 ⊢; exact h0
         | quiesce => exact h0
 
 /-- an uncovered `released` obligation keeps `need` above the tentative one until a Broadcast -/
@@ -70,9 +71,41 @@ theorem need_stays (s s' : St) (h : List Ev) (h0 : s.need ≥ tent s + 1) (hnb :
               cases htt : s.tentative <;> simp_all
             simp [tent, this] at h0 ⊢; omega
           · exact h0
-        | released id n b f => simp only [apply]; split <;> simp_all [tent] <;> omega
+        | released id n b f => simp only [apply]; split <;> split <;> simp_all [tent] <;> omega
         | bcast site => exact absurd (List.mem_cons_self) (hnb site)
         | returned id => simp only [apply]; split <;> simp_all [tent] <;> omega
+        | flushReturned => simp only [apply, tent] at h0 ⊢; exact h0
+        | quiesce => exact h0
+
+/-- an uncovered flush obligation stays until a Broadcast or the return of a flusher -/
+theorem flushNeed_stays (s s' : St) (h : List Ev) (h0 : s.flushNeed = true) (hnb : ∀ site, Ev.bcast site ∉ h)
+    (hnf : Ev.flushReturned ∉ h) (hr : run s h = some s') : s'.flushNeed = true := by
+  induction h generalizing s with
+  | nil => simp [run] at hr; subst hr; exact h0
+  | cons e es ih =>
+    simp only [run] at hr
+    cases hs : step s e with
+    | none => simp [hs] at hr
+    | some s₁ =>
+      simp only [hs] at hr
+      refine ih s₁ ?_ (fun site hm => hnb site (by simp [hm])) (fun hm => hnf (by simp [hm])) hr
+      unfold step at hs
+      cases hc : check s e with
+      | some r => simp [hc] at hs
+      | none =>
+        simp only [hc, Option.some.injEq] at hs
+        subst hs
+        cases e with
+        | unblocked id b n f => simp only [apply]; split <;> simp_all
+        | admitted id => simp only [apply]; split <;> simp_all
+        | released id n b f =>
+          simp only [apply]
+          split
+          · rfl
+          · split <;> simp_all
+        | bcast site => exact absurd (List.mem_cons_self) (hnb site)
+        | returned id => simp only [apply]; split <;> simp_all
+        | flushReturned => exact absurd (List.mem_cons_self) hnf
         | quiesce => exact h0
 
 end Proof.ProducerWake
